@@ -299,6 +299,13 @@ impl<'a> ReplyData<'a> {
             }
         });
 
+        if self.payload.is_payload_marked() != new_reply_data.payload.is_payload_marked() {
+            emit_error!(current_method_name.span(), "Mismatched payload deserialization in reply handlers.";
+                note = self.handler_id.span() => format!("Either all or none of the `{}` handlers should mark the payload with `#[sv::payload(raw)]`.", self.handler_id);
+                note = new_handler.function_name().span() => format!("Previous definition of {} handler.", self.handler_id)
+            );
+        }
+
         // Only the `success` handler can declare the data parameter and it does not have to be
         // the first handler defined for this reply id.
         if self.data.is_none() {
